@@ -119,7 +119,7 @@ def collect(cg, syn):
             seen.add(ident)
             sites.append({"file": r["file"], "l": r["l"], "fn": owner["path"], "cls": cc, "step": step, "key": key, "macro": r.get("macro")})
         for a in f["asserts"]:
-            if a["kind"] in ("bounds", "div_zero", "rem_zero") and not (a.get("macro") or "").startswith("#[derive"):
+            if a["kind"] in ("bounds", "div_zero", "rem_zero", "overflow_sub", "overflow_neg") and not (a.get("macro") or "").startswith("#[derive"):
                 key = (short_file(a["file"]), "mir:" + a["kind"], "")
                 ident = (a["file"], a["l"], a.get("c"), a["kind"])
                 if ident in seen:
